@@ -160,7 +160,11 @@ def gen_requests(r, mode, prefix, n):
             q = {k: r.choice(pathish + ["stored-by-query.ipynb"]) for k in r.sample(["outputfilename", "path", "fn", "out"], r.choice([0, 0, 1, 2]))}
             reqs.append(("store-valid", "POST", api + "/api/store" + (("?" + urlencode(q)) if q else ""), body))
         elif c < 0.55:
-            bad = r.choice([{"merged": "a string"}, {"merged": [1, 2]}, {"merged": None}, {"nothing": 1}, {"merged": 3}])
+            # (the last: a notebook whose text holds half of a surrogate pair, which JSON can spell (\\ud800) but no UTF-8
+            # file can hold - what JSON.stringify sends for a string cut in the middle of an emoji)
+            bad = r.choice([{"merged": "a string"}, {"merged": [1, 2]}, {"merged": None}, {"nothing": 1}, {"merged": 3},
+                            {"merged": {"nbformat": 4, "nbformat_minor": 4, "metadata": {}, "cells": [
+                                {"cell_type": "markdown", "metadata": {}, "source": "cut \ud83d"}]}}])
             reqs.append(("store-malformed", "POST", api + "/api/store", json.dumps(bad).encode()))
         elif c < 0.6:
             reqs.append(("close", "POST", api + "/api/closetool", json.dumps({"exitCode": 0}).encode()))
